@@ -59,6 +59,7 @@ type SymStr struct {
 type symPart struct {
 	verb string
 	t    *Term
+	uns  bool // the formatted integer was of an unsigned type
 }
 
 func (s *SymStr) String() string {
@@ -156,7 +157,7 @@ func (e *Exec) zero(t types.Type) Value {
 			return ""
 		}
 		if t.Info()&types.IsFloat != 0 {
-			return c.FPConst(0)
+			return e.fpConst(0)
 		}
 		if w, _, ok := intWidth(t); ok {
 			return e.intConst(w, 0)
